@@ -203,6 +203,48 @@ fn cmd_run(args: &[String]) -> i32 {
     let mut digests = std::env::var("KMSIM_DIGESTS")
         .ok()
         .map(|p| std::io::BufWriter::new(std::fs::File::create(p).expect("digest file")));
+    let mut last_flush = std::time::Instant::now();
+    // summaries are rewritten every few seconds, so that a worker that dies (UB
+    // abort, watchdog, resource exhaustion) still leaves what it explored
+    macro_rules! write_summary {
+        () => {{
+    let mut hf = std::fs::File::create(outdir.join(format!("worker_{worker}.hashes"))).unwrap();
+        for h in &hashes {
+            hf.write_all(&h.to_le_bytes()).unwrap();
+        }
+        let mut sf = std::fs::File::create(outdir.join(format!("worker_{worker}.schedhashes"))).unwrap();
+        for h in &sched_hashes {
+            sf.write_all(&h.to_le_bytes()).unwrap();
+        }
+        let summary = json!({
+            "worker": worker,
+            "meta": {"rule": engine.nontrivial_rule(), "real": engine.real_components(), "stub": engine.stub_components(), "required_probes": engine.required_probes()},
+            "runs": runs,
+            "executions": execs,
+            "scheduler_steps": steps,
+            "steps_with_choice": choice_steps,
+            "context_switches": cs,
+            "preemptions": preempt,
+            "stall_windows": stall_windows,
+            "pct_priority_changes": prio_changes,
+            "max_tasks": max_tasks,
+            "nontrivial_runs": nontrivial_runs,
+            "sched_kinds": sched_kinds,
+            "knobs": knobs,
+            "faults": stats_json(&stats),
+            "probes": probes,
+            "samples": samples,
+            "violations": violations,
+            "stopped_by_time": stopped_by_time,
+            "wall_s": start.elapsed().as_secs_f64(),
+        });
+        std::fs::write(
+            outdir.join(format!("worker_{worker}.json")),
+            serde_json::to_string(&summary).unwrap(),
+        )
+        .unwrap();
+        }};
+    }
     while index < count {
         if start.elapsed().as_secs() >= max_secs {
             stopped_by_time = true;
@@ -275,43 +317,13 @@ fn cmd_run(args: &[String]) -> i32 {
             }
         }
         index += workers;
+        if last_flush.elapsed().as_secs() >= 5 {
+            last_flush = std::time::Instant::now();
+            write_summary!();
+        }
     }
     std::fs::remove_file(&progress_path).ok();
-    let mut hf = std::fs::File::create(outdir.join(format!("worker_{worker}.hashes"))).unwrap();
-    for h in &hashes {
-        hf.write_all(&h.to_le_bytes()).unwrap();
-    }
-    let mut sf = std::fs::File::create(outdir.join(format!("worker_{worker}.schedhashes"))).unwrap();
-    for h in &sched_hashes {
-        sf.write_all(&h.to_le_bytes()).unwrap();
-    }
-    let summary = json!({
-        "worker": worker,
-        "meta": {"rule": engine.nontrivial_rule(), "real": engine.real_components(), "stub": engine.stub_components(), "required_probes": engine.required_probes()},
-        "runs": runs,
-        "executions": execs,
-        "scheduler_steps": steps,
-        "steps_with_choice": choice_steps,
-        "context_switches": cs,
-        "preemptions": preempt,
-        "stall_windows": stall_windows,
-        "pct_priority_changes": prio_changes,
-        "max_tasks": max_tasks,
-        "nontrivial_runs": nontrivial_runs,
-        "sched_kinds": sched_kinds,
-        "knobs": knobs,
-        "faults": stats_json(&stats),
-        "probes": probes,
-        "samples": samples,
-        "violations": violations,
-        "stopped_by_time": stopped_by_time,
-        "wall_s": start.elapsed().as_secs_f64(),
-    });
-    std::fs::write(
-        outdir.join(format!("worker_{worker}.json")),
-        serde_json::to_string(&summary).unwrap(),
-    )
-    .unwrap();
+    write_summary!();
     if violations.is_empty() {
         0
     } else {
